@@ -67,7 +67,7 @@ func plans(points []gspec.IntPoint, k int) []gspec.Plan {
 func TestCheck(t *testing.T) {
 	cfg := mon.Load(ID)
 	rep := mon.NewReporter(cfg, "fault_enumeration",
-		"generated specs (all three modes, nested graphs, state, self-interrupting nodes) × every subset of <=2 (quick) / <=3 (thorough, capped) interrupt points at every nesting level, including direct successors of START, nodes reached through branches, the last node before END and nodes inside nested graphs; every history is driven to completion through a byte-only store. Trace monitor over the per-call execution logs, the returned errors, the store accesses and the task-hook events: (1) a node configured interrupt-before executes at most once per call and only in a call that follows an interrupt which reported it at its nesting level; (2) after an interrupt-after node has completed and been collected no further task of that graph is started, and unless the call finished the run, the call returns an interrupt listing it; (3) every interrupt is an error from which ExtractInterruptInfo yields before/after/rerun/sub-graph lists that are consistent with the configuration and with what executed, and a state iff the graph has one, whose counter continues the handler history; (4) with a checkpoint id exactly one Set per interrupted call and none otherwise; without an id no store access at all. Non-trivial: a history with >=1 interrupt; distinct = (spec, input, plan).",
+		"generated specs (all three modes, nested graphs, state, self-interrupting nodes) × every subset of <=2 (quick) / <=3 (thorough, capped) interrupt points at every nesting level, including direct successors of START, nodes reached through branches, the last node before END and nodes inside nested graphs; every history is driven to completion through a byte-only store. Trace monitor over the per-call execution logs, the returned errors, the store accesses and the task-hook events: (1) a node configured interrupt-before executes at most once per call and only in a call that follows an interrupt which reported it at its nesting level; (2) after an interrupt-after node has completed and been collected no further task of that graph is started, and unless the call finished the run, the call returns an interrupt listing it; (3) every interrupt is an error from which ExtractInterruptInfo yields before/after/rerun/sub-graph lists that are consistent with the configuration and with what executed, and a state iff the graph has one, whose counter continues the handler history; (4) with a checkpoint id exactly one Set per interrupted call and none otherwise; without an id no store access at all. Non-trivial: a history with >=1 interrupt; distinct = (spec, input, plan). PLUS a typed sub-workload (the last 14 (quick) / 28 (thorough) cases of every shard, typed_test.go; engine shared with C05): typed graphs and workflows (struct values behind field mappings, any->T edges, input keys, nil interface values, schema.Message values, deep nesting) with every single interrupt point, sampled pairs and self-interrupting nodes, each history in one form (Invoke only / Stream only, sometimes entered through Collect/Transform), with and without checkpoint id: every call finishes or returns an extractable interrupt, one Set iff interrupted, no store access without id, info lists consistent with configuration and log, state carried iff declared and owned by that graph, interrupt-before nodes run only after being reported.",
 		[]string{"what a resumed run computes is C05's business; here only the interrupt protocol is judged"},
 		300)
 	defer func() {
